@@ -139,13 +139,15 @@ Lemma leaf_put_ok lo hi (l : leaf) pos (e : entry) :
   lo_ok lo (fst e) -> hi_ok hi (fst e) -> csize e + SLOT <= lfree l ->
   leaf_ok lo hi (leaf_put V vlen l pos e) /\ Permutation (lcells (leaf_put V vlen l pos e)) (e :: lcells l).
 Proof.
-  intros (Hs & Hin & Hsz1 & Hsz2 & Hfr) Heq Hn Hlo Hhi Hroom. unfold leaf_put. cbn [lcells lfe lfrag]. rewrite Heq.
+  intros (Hs & Hin & Hsz1 & Hsz2 & Hfr & Hemp) Heq Hn Hlo Hhi Hroom. unfold leaf_put. cbn [lcells lfe lfrag]. rewrite Heq.
   pose proof (om_ins_perm V e (lcells l)) as P. split; [|apply Permutation_sym; exact P].
   split; [apply om_ins_sorted; assumption|]. split.
   - eapply Permutation_Forall; [exact P|]. constructor; [split; assumption | exact Hin].
   - unfold leaf_sizes, lcount, BTree.lfree, lfstart, lcount in *. cbn [lcells lfe lfrag].
     rewrite <- (Permutation_length P). rewrite <- (sumz_perm _ _ (Permutation_map csize P)). cbn [length map sumz fold_right].
-    pose proof (csize_nonneg e). unfold SLOT, LEAF_START, PAGE, sumz in *. rewrite Nat2Z.inj_succ. lia.
+    pose proof (csize_nonneg e). split; [unfold SLOT, LEAF_START, PAGE, sumz in *; rewrite Nat2Z.inj_succ; lia|].
+    split; [unfold SLOT, LEAF_START, PAGE, sumz in *; lia|]. split; [exact Hfr|].
+    intros Hnil. exfalso. apply (f_equal (@length _)) in Hnil. rewrite <- (Permutation_length P) in Hnil. discriminate.
 Qed.
 
 (* ---------------------------------------------------------------- sub-lists of a sorted, bounded cell list *)
